@@ -148,6 +148,9 @@ def run_case(args):
                     res['unknown'].append(dict(label=ob['label'], trace=rec['trace'][:40]))
             if oc == 'notenc':
                 res['notenc'].append(rec['exc'])
+            elif oc == 'solver-timeout':
+                res['unknown'].append(dict(label='path abandoned: solver time exceeded the path budget', trace=rec['trace'][:40]))
+                res['solver_timeouts'] = res.get('solver_timeouts', 0) + 1
             elif oc != 'ok' and not allowed(case, rec):
                 res['candidates'].append(dict(kind=oc, label=oc, exc=rec.get('exc'), exc_type=rec.get('exc_type'),
                                               where=rec.get('exc_where'), inputs=rec.get('nice') or rec.get('witness'),
@@ -171,7 +174,7 @@ def run_case(args):
                 try:
                     with core._Alarm(c.path_wall_s):
                         sig = fn(c)
-                    r, m = c.path_model()
+                    r, m = c.path_model(timeout_ms=3000)
                     if r != 'sat':
                         res['validation_skipped'] += 1
                         continue
@@ -329,6 +332,7 @@ def main(argv=None):
             outcomes[k] = outcomes.get(k, 0) + v
         notenc += r['notenc']
         unknown += [dict(case=r['case'], **u) for u in r['unknown']]
+        agg['unknown'] += r.get('solver_timeouts', 0)
         validated += r['validated']
         mism += r['validation_mismatch']
         vskip += r['validation_skipped']
